@@ -439,11 +439,10 @@ example : chordAt (balInp.build.used.getD 0 []) ((balInp.build.used.getD 0 []).m
 example : 0 < 4 ∧ ∀ c < 4, 0 < balTau c := by decide +kernel
 
 /- PENDING (not proved here):
-   * a tissue-level theorem discharging `hnorm`/`htrue` for ALL kept junctions of a tissue whose interfaces are exact
-     arcs or straight lines:  `∀ r ∈ inp.build.rows, r.2.1 = true → ∀ c < inp.build.used.length, endsAt … →
-     inp.tangentAt c r.1 = some (Vec.smul (len r.1 c) (dir r.1 c))` from "all points of interface c lie on the circle
-     about `inp.centers[…]`" — only the single-end statement `tangentAt_arc` (under the sign-agreement hypothesis; D2 is
-     the failing case) and, for two-point interfaces, `vectorFromVertex_two_points` (Props/C02.lean) are proved;
+   * `hnorm`/`htrue` for ALL kept junctions of a tissue whose interfaces are exact arcs or straight two-point segments
+     are proved in Props/C01tissue.lean (`arcTissue_hnorm_htrue`, `arcTissue_static_inference`) — under the
+     sign-agreement hypothesis `SignsAgree` (finding D2 is the failing case: `signsAgree_necessary_witness`), which is
+     not implied by the geometry and remains a hypothesis;
    * a criterion for hypothesis (d) (`hinj`, the augmented matrix is injective) in terms of the tissue graph;
    * that the external kernels deliver their contracts (circle fit → centres; `np.linalg.norm` → `len`; nnls /
      lsq_linear → `hmin`): checked per run by the harness (C02, C05), outside the model.
